@@ -398,9 +398,15 @@ func (s *lsys) condFacts(c ssa.Value, want bool) {
 	}
 }
 
+// assumedFacts: preconditions under which a helper is being checked (its callers are checked to establish them).
+var assumedFacts = map[*ssa.Function][]func(s *lsys){}
+
 // factsAt builds the system of everything known when instruction `in` executes.
 func factsAt(in ssa.Instruction) *lsys {
 	s := &lsys{seen: map[lterm]bool{}}
+	for _, f := range assumedFacts[in.Parent()] {
+		f(s)
+	}
 	b := in.Block()
 	for d := b; d != nil; d = d.Idom() {
 		// comparisons on dominating edges
